@@ -2,7 +2,32 @@ package desync
 
 // C09: random-access reads through an index return exactly the blob's bytes.
 
-import "io"
+import (
+	"context"
+	"io"
+	"sync"
+	"syscall"
+
+	"github.com/hanwen/go-fuse/v2/fs"
+	"github.com/hanwen/go-fuse/v2/fuse"
+)
+
+// verifFuseFile is the file node of an index mount; handles come from its Open method and
+// are read through its Read method, as the FUSE server does.
+type verifFuseHandle struct {
+	n  *indexFile
+	fh fs.FileHandle
+}
+
+func verifFuseOpen(n *indexFile) *verifFuseHandle {
+	fh, _, errno := n.Open(context.Background(), 0)
+	vAssert(errno == 0 && fh != nil, "open of the mounted file failed")
+	return &verifFuseHandle{n, fh}
+}
+
+func (h *verifFuseHandle) read(dest []byte, off int64) (fuse.ReadResult, syscall.Errno) {
+	return h.n.Read(context.Background(), h.fh, dest, off)
+}
 
 // verifBlobIndex builds a blob of k chunks with solver-chosen sizes 1..max and
 // symbolic content, its index and a store holding the chunks.
@@ -45,7 +70,7 @@ func VerifC09_FuseRead() {
 	k := 1 + vChoose("chunks", maxK)
 	blob, idx, st := verifBlobIndex(k, 2)
 	length := int64(len(blob))
-	h := newIndexFileHandle(idx, st)
+	h := verifFuseOpen(&indexFile{idx: idx, store: st})
 	nreads := 2
 	for q := 0; q < nreads; q++ {
 		off := vI64("offset")
@@ -71,6 +96,45 @@ func VerifC09_FuseRead() {
 	}
 }
 
+// VerifC09_FuseTwoHandles: two handles opened on the mounted file, read concurrently (the store
+// yields inside every request): each request returns the bytes of its own range.
+func VerifC09_FuseTwoHandles() {
+	vPreempt(1)
+	blob, idx, st := verifBlobIndex(2, 2)
+	st.yield = true
+	length := int64(len(blob))
+	n := &indexFile{idx: idx, store: st}
+	var wg sync.WaitGroup
+	for g := 0; g < 2; g++ {
+		h := verifFuseOpen(n)
+		off := int64(vChoose("offset", 3))
+		vAssume(off <= length)
+		wg.Add(1)
+		go func() {
+			defer wg.Done()
+			dest := make([]byte, 2)
+			res, errno := h.read(dest, off)
+			vCover("fuse-read")
+			vAssert(errno == 0, "EIO from a healthy store")
+			if errno != 0 {
+				return
+			}
+			b, _ := res.Bytes(nil)
+			want := length - off
+			if want > 2 {
+				want = 2
+			}
+			vAssert(int64(len(b)) == want, "FUSE read returned fewer bytes than exist for the range")
+			ok := true
+			for c := 0; c < len(b) && int64(c) < want; c++ {
+				ok = vAnd(ok, b[c] == blob[off+int64(c)])
+			}
+			vAssert(ok, "FUSE read on one handle returned bytes of another position (state shared between handles?)")
+		}()
+	}
+	wg.Wait()
+}
+
 // VerifC09_FuseStoreErrors: the same FUSE handle over a store whose k-th GetChunk fails
 // (k chosen by the solver).  A request is answered either with an error status or with the
 // complete, correct range - a store failure on the second chunk of a request that spans a
@@ -84,7 +148,7 @@ func VerifC09_FuseStoreErrors() {
 	st.useAt, st.failGetAt, st.failHasAt, st.failPutAt = true, vInt("fail-get-at"), -1, -1
 	vAssume(st.failGetAt >= 0 && st.failGetAt < 3)
 	length := int64(len(blob))
-	h := newIndexFileHandle(idx, st)
+	h := verifFuseOpen(&indexFile{idx: idx, store: st})
 	for q := 0; q < reads; q++ {
 		off := vI64("offset")
 		vAssume(off >= 0 && off <= length)
@@ -173,6 +237,21 @@ func (m *verifC09Ref) read(l int) {
 	}
 	m.pos += int64(n)
 }
+
+// verifReaderRetry: the store fails one request (the k-th, solver-chosen) and works again
+// afterwards; the reader is read four times in a row (a consumer that retries after an error, as
+// the kernel does for a FUSE mount): every byte handed out is the blob's byte at that position.
+func verifReaderRetry() {
+	blob, idx, st := verifBlobIndex(2, 2)
+	st.failGet = map[int]bool{vChoose("failing-get", 3): true}
+	m := &verifC09Ref{r: NewIndexReadSeeker(idx, st), blob: blob, length: int64(len(blob)), st: st}
+	for k := 0; k < 4; k++ {
+		m.read(1 + vChoose("readlen", 2))
+	}
+}
+
+// VerifC09_RetryAfterError: see verifReaderRetry.
+func VerifC09_RetryAfterError() { verifReaderRetry() }
 
 // VerifC09_History: Seek(start, p0); Read(l0); then one more arbitrary operation
 // (thorough: two), all offsets symbolic 64-bit values, every result checked against the blob.
